@@ -229,7 +229,12 @@ func ruleTabExtOid(c *Ctx, r *Rep) {
 		r.Check(v == int64(i), "enum-order|"+rs(e, "const"), gpos, sprintf("constant %s = %d", rs(e, "const"), i), sprintf("%d", v))
 	}
 	r.Check(len(table) == len(ref), "table-length", gpos, sprintf("%d entries", len(ref)), sprintf("%d", len(table)))
-	_ = getFn
+	lookupTotal(c, ev, r, getFn, len(table), func(k int) string {
+		if k < len(ref) {
+			return rs(ref[k], "const")
+		}
+		return sprintf("%d", k)
+	})
 
 	// per ExtensionConfig implementation
 	iface := c.extConfigIface()
@@ -553,6 +558,7 @@ func ruleTabEKU(c *Ctx, r *Rep) {
 		r.Undecided("anchor:eku-table", "", why)
 		return
 	}
+	lookupTotal(c, ev, r, getFn, len(table), func(k int) string { return sprintf("eku-%d", k) })
 	// rows: string label -> constant index passed to the lookup
 	rows := map[string][]int64{}
 	var tabFn *ssa.Function
